@@ -35,7 +35,7 @@ type op struct {
 	tmpl  string // %0 %1 %2 are the holes
 	holes []hole
 	cost  int
-	tier  int // rank 1..4: the higher, the larger the program sizes it is still used for (see rankFor)
+	tier  int // rank 0..4: the higher, the larger the program sizes it is still used for (see rankFor)
 }
 
 func u(tmpl string, tier int, extra ...string) op {
@@ -155,37 +155,44 @@ func allAtoms() []atom {
 	as := []atom{
 		// paths
 		{".", 4}, {".a", 3}, {".[]", 4}, {".[0]", 1}, {"..", 1}, {".[]?", 1}, {".a?", 1}, {".c", 1}, {".[-1]", 1}, {".[1:]", 1},
-		{".a.b", 1}, {".[\"c\"][1]", 1}, {".[:1]", 1},
+		{".a.b", 0}, {".[\"c\"][1]", 1}, {".[:1]", 0},
 		// literals
-		{"null", 2}, {"true", 1}, {"false", 1}, {"0", 1}, {"1", 4}, {"-1", 1}, {"1.5", 1}, {"\"a\"", 4}, {"\"a,b\"", 1}, {"\",\"", 1},
+		{"null", 2}, {"true", 0}, {"false", 1}, {"0", 1}, {"1", 4}, {"-1", 1}, {"1.5", 1}, {"\"a\"", 4}, {"\"a,b\"", 1}, {"\",\"", 1},
 		{"[]", 1}, {"{}", 1}, {"[1,[2]]", 1}, {"{\"a\":1}", 1}, {"10000000000000000000", 1}, {"empty", 3}, {"error", 1},
 		{"\"\"", 1}, {"\"g\"", 1}, {"\"(?<x>a)|(b)\"", 1},
 		// standard built-ins fq leaves alone (representatives of the families named in the property)
 		{"length", 1}, {"keys", 1}, {"type", 1}, {"tostring", 1}, {"tonumber", 1}, {"not", 1}, {"add", 1}, {"first", 1}, {"last", 1},
 		{"to_entries", 1}, {"from_entries", 1}, {"paths", 1}, {"sort", 1}, {"unique", 1}, {"reverse", 1}, {"ascii_downcase", 1},
 		{"floor", 1}, {"implode", 1}, {"range(2)", 1}, {"getpath([\"a\",\"b\"])", 1}, {"ltrimstr(\"a\")", 1}, {"join(\",\")", 1},
-		{"tostream", 1}, {"min", 1}, {"flatten", 1}, {"utf8bytelength", 1}, {"ascii_upcase", 1}, {"trim", 1}, {"abs", 1},
-		{"transpose", 1}, {"values", 1}, {"scalars", 1}, {"recurse", 1}, {"any", 1}, {"all", 1}, {"nan", 1}, {"infinite", 1},
+		{"tostream", 0}, {"min", 0}, {"flatten", 0}, {"utf8bytelength", 0}, {"ascii_upcase", 0}, {"trim", 0}, {"abs", 0},
+		{"transpose", 0}, {"values", 0}, {"scalars", 0}, {"recurse", 0}, {"any", 0}, {"all", 0}, {"nan", 0}, {"infinite", 0},
 		// standard built-ins fq redefines or wraps
 		{"explode", 2}, {"tojson", 2}, {"fromjson", 1}, {"debug", 2}, {"stderr", 1},
 		{"split(\",\")", 4}, {"splits(\",\")", 1}, {"test(\"a\")", 1}, {"match(\"a\")", 1}, {"capture(\"(?<x>a)\")", 1}, {"scan(\"a\")", 1},
 		{"split(\",\"; \"g\")", 1}, {"split(\"\")", 1}, {"split(\".\")", 1}, {"test(\"A\"; \"i\")", 1}, {"debug(\"m\")", 1},
-		{"[match(\".\"; \"g\")]", 1}, {"sub(\"a\"; \"b\")", 1}, {"gsub(\"\"; \"-\")", 1}, {"@text", 1}, {"todate", 1},
+		{"[match(\".\"; \"g\")]", 0}, {"sub(\"a\"; \"b\")", 1}, {"gsub(\"\"; \"-\")", 1}, {"@text", 0}, {"todate", 0},
 		{"tojson|fromjson", 1},
 	}
 	for _, f := range formats {
-		as = append(as, atom{f, 1})
+		rank := 1
+		if f == "@text" || f == "@urid" || f == "@tsv" || f == "@html" {
+			rank = 0
+		}
+		as = append(as, atom{f, rank})
 	}
 	return as
 }
 
 // rankFor maps a total program size to the minimum rank of the atoms and
-// operators used for programs of that size: everything for sizes 0 and 1; for
+// operators used for programs of that size: everything for size 0 (every atom on
+// its own), everything but the rank 0 atoms for size 1 (thorough: everything); for
 // size 2 the rank>=3 subset in the quick tier and the rank>=2 subset in the
 // thorough tier; for size 3 (thorough only) the rank 4 core.
 func rankFor(K int, thorough bool) int {
 	switch {
-	case K <= 1:
+	case K == 0 || K == 1 && thorough:
+		return 0
+	case K == 1:
 		return 1
 	case K == 2 && thorough:
 		return 2
